@@ -20,8 +20,8 @@ NO_COMPRESS = {'SRV', 'NAPTR', 'KX', 'RRSIG', 'NSEC', 'IPSECKEY', 'SVCB', 'HTTPS
 
 
 NATIVE_BYTES = r'''
-        let comp = match p.build_bytes_vec_compressed() { Ok(b) => b, Err(_) => { return ("build".to_string(), vec![]); } };
-        (comp.iter().map(|b| format!("{:02x}", b)).collect::<String>(), vec![])
+        let comp = match p.build_bytes_vec_compressed() { Ok(b) => b, Err(_) => { return ("build".to_string(), 0u8); } };
+        (comp.iter().map(|b| format!("{:02x}", b)).collect::<String>(), 0u8)
     });
     match r {
         Ok((hex, _)) => println!("REPLAY-RESULT {{\"outcome\":\"ok\",\"bytes_hex\":\"{}\"}}", hex),
